@@ -1008,7 +1008,18 @@ func (c *FnCtx) coverModifies(con *FuncContract, pkg *Pkg, bind map[string]strin
 		case "mapall":
 			c.frameCheck(pre, "map", obj, "call "+fname+": "+m.Text+"[*]", pos)
 		case "elems":
+			// elems(x.f) of a nil x denotes nothing (the callee cannot write through a nil pointer)
+			for _, m2 := range con.Modifies {
+				if m2.Kind == "field" && m2.Text+"."+m2.Fld == m.Text {
+					a2 := map[string]string{}
+					for _, n := range m2.Params {
+						a2[n] = bind[n]
+					}
+					c.frameExtraAllow = eq(c.evalSynth(m2.GoFn, pkg, a2, pre, true), "0")
+				}
+			}
 			c.frameCheck(pre, "elems", "(sbase "+obj+")", "call "+fname+": elems("+m.Text+")", pos)
+			c.frameExtraAllow = ""
 		case "cell":
 			c.frameCheck(pre, "cell", obj, "call "+fname+": *"+m.Text, pos)
 		}
